@@ -420,3 +420,128 @@ components:
         cause:
           $ref: '#/components/schemas/ErrB'
 `
+
+// hostEcho: scalar values spell the names of keys of the same mapping (a parameter named
+// "style", a schema described as "type", ...): a position looked up by key name must not
+// land on a value.
+const hostEcho = `openapi: 3.0.3
+info:
+  title: echo
+  version: "1"
+paths:
+  /e/{required}:
+    get:
+      operationId: echo
+      parameters:
+        - name: style
+          in: query
+          style: form
+          explode: true
+          schema:
+            description: enum
+            type: string
+            enum: [enum, type]
+        - name: required
+          in: path
+          required: true
+          schema:
+            description: type
+            type: string
+        - name: schema
+          in: header
+          schema:
+            $ref: '#/components/schemas/kind'
+        - name: content
+          in: query
+          content:
+            application/json:
+              schema:
+                description: properties
+                type: object
+                properties:
+                  name:
+                    description: type
+                    type: string
+      security:
+        - flows: []
+      responses:
+        "200":
+          description: content
+          headers:
+            X-Description:
+              description: schema
+              schema:
+                description: format
+                type: string
+                format: uuid
+          content:
+            application/json:
+              schema:
+                $ref: '#/components/schemas/holder'
+        default:
+          description: $ref
+          content:
+            application/json:
+              schema:
+                $ref: '#/components/schemas/kind'
+components:
+  securitySchemes:
+    flows:
+      description: name
+      type: apiKey
+      name: in
+      in: header
+  schemas:
+    kind:
+      description: type
+      type: string
+      enum: [type, format, items]
+    holder:
+      description: properties
+      type: object
+      required: [items]
+      properties:
+        items:
+          description: items
+          type: array
+          items:
+            $ref: '#/components/schemas/kind'
+        enum:
+          description: default
+          type: string
+          default: enum
+          enum: [enum, default]
+        oneOf:
+          description: discriminator
+          oneOf:
+            - $ref: '#/components/schemas/left'
+            - $ref: '#/components/schemas/right'
+          discriminator:
+            propertyName: mapping
+            mapping:
+              left: '#/components/schemas/left'
+              right: '#/components/schemas/right'
+    left:
+      description: required
+      type: object
+      required: [mapping, minimum]
+      properties:
+        mapping:
+          type: string
+        minimum:
+          description: maximum
+          type: integer
+          minimum: 1
+          maximum: 9
+    right:
+      description: required
+      type: object
+      required: [mapping, pattern]
+      properties:
+        mapping:
+          type: string
+        pattern:
+          description: pattern
+          type: string
+          pattern: ^pattern$
+`
